@@ -87,7 +87,7 @@ func getE2E() (*e2eFixture, error) {
 		go func() {
 			f.done <- FeedBastion(ctx, Config{Addr: stub.Addr, Logs: logs, BastionKey: ed25519.NewKeyFromSeed(seed[:]), WitnessVerifier: witnessCosigVerifier(e), Limits: RequestLimits{TotalPerSecond: rate.Limit(1e9)}}, f.sw)
 		}()
-		if err := stub.WaitConnected(40 * time.Second); err != nil {
+		if err := stub.WaitConnected(120 * time.Second); err != nil {
 			cancel()
 			e2eErr = err
 			return
